@@ -14,6 +14,7 @@ import XV.Lemmas.Decimal
 import XV.Lemmas.Codec
 import XV.Lemmas.Ws
 import XV.Lemmas.DateTime
+import XV.Lemmas.Facets
 namespace XV.Props.C09
 open XV.Spec.Decimal XV.Model.Decimal XV.Lemmas.Decimal
 
@@ -598,6 +599,104 @@ theorem datetime_orig_fails :
 
 end DateTime
 
+/-! ## constraining facets, restriction chains, list, union
+
+Models (XV.Model.Facets, code-shaped): AbstractNumericFacetValidator::inspectFacet / inspectFacetBase / inheritFacet,
+AbstractNumericValidator::boundsCheck, DecimalDatatypeValidator digits facets and enumeration, AbstractStringValidator
+length facets, List/UnionDatatypeValidator::checkContent.  The value space is abstract (`cmp`, digit counts, length);
+`decLaws` / `intLaws` instantiate the order laws for decimal values (`XV.Spec.Decimal.cmpSpec`) and for integers /
+instants of the time line (date/time values in normal range with equal zonedness, `compare_spec_partial`). -/
+section Facets
+open XV.Spec.Facets XV.Model.Facets XV.Lemmas.Facets
+variable {V : Type} (cmp : V → V → Int) (dg : V → Nat × Nat) (len : V → Nat)
+
+/-- `boundsCheck` + digits + enumeration are §4.3: maxInclusive is ≤, maxExclusive is <, minInclusive is ≥,
+minExclusive is >, totalDigits / fractionDigits bound the digit counts, enumeration is value equality. -/
+theorem bounds_spec (L : OrderLaws cmp) (f : Step V) (v : V)
+    (hl : f.length = none ∧ f.minLength = none ∧ f.maxLength = none) :
+    checkNumeric cmp dg f v = true ↔ stepOk cmp dg len f v := checkNumeric_spec cmp dg len L f v hl
+
+/-- Along a chain of restriction steps of ANY length that the derivation checks accept (`validFrom`: inspectFacet and
+inspectFacetBase at every step), the facet set `inheritFacet` leaves in force accepts a value iff the starting type
+and EVERY step accept it: inheritance drops a base bound only when the step's own bound implies it. -/
+theorem inherit_eq_conjunction (L : OrderLaws cmp) (hdg : ∀ a e, cmp a e = 0 → dg a = dg e)
+    (base : Step V) (steps : List (Step V)) (hwf : WF base) (hv : validFrom cmp dg base steps = true) (v : V) :
+    checkNumeric cmp dg (effective base steps) v = true ↔
+      (checkNumeric cmp dg base v = true ∧ ∀ s ∈ steps, checkNumeric cmp dg s v = true) := by
+  rw [chain_conj cmp dg L hdg steps base hwf hv v]
+  simp [List.all_eq_true]
+
+/-- the same for decimal values ordered by `cmpSpec` (what DecimalDatatypeValidator compares) -/
+theorem inherit_eq_conjunction_decimal (dgd : Int × Nat → Nat × Nat) (hdg : ∀ a e, decCmp a e = 0 → dgd a = dgd e)
+    (steps : List (Step (Int × Nat))) (hv : validFrom decCmp dgd {} steps = true) (v : Int × Nat) :
+    checkNumeric decCmp dgd (effective {} steps) v = true ↔ ∀ s ∈ steps, checkNumeric decCmp dgd s v = true := by
+  rw [inherit_eq_conjunction decCmp dgd decLaws hdg {} steps (by simp [WF]) hv v]
+  simp [checkNumeric, boundsCheck]
+
+/-- a derived type accepts a subset of what its base accepts -/
+theorem restriction_monotone (L : OrderLaws cmp) (hdg : ∀ a e, cmp a e = 0 → dg a = dg e)
+    (base : Step V) (steps : List (Step V)) (t : Step V) (hwf : WF base)
+    (hv : validFrom cmp dg base (steps ++ [t]) = true) (v : V)
+    (h : checkNumeric cmp dg (effective base (steps ++ [t])) v = true) :
+    checkNumeric cmp dg (effective base steps) v = true := by
+  have hv' : validFrom cmp dg base steps = true := by
+    clear h
+    induction steps generalizing base with
+    | nil => rfl
+    | cons a r ih =>
+      simp only [List.cons_append, validFrom, Bool.and_eq_true] at hv ⊢
+      exact ⟨hv.1, ih (inheritFacet base a) (wf_inherit cmp base a hwf hv.1.1) hv.2⟩
+  rw [inherit_eq_conjunction cmp dg L hdg base (steps ++ [t]) hwf hv v] at h
+  rw [inherit_eq_conjunction cmp dg L hdg base steps hwf hv' v]
+  exact ⟨h.1, fun s hs => h.2 s (List.mem_append_left _ hs)⟩
+
+/-- string types: length / minLength / maxLength / enumeration along a chain of any length -/
+theorem length_inherit_eq_conjunction (hcmp : ∀ a e c, cmp a e = 0 → cmp a c = cmp e c)
+    (hlen : ∀ a e, cmp a e = 0 → len a = len e) (base : Step V) (steps : List (Step V))
+    (hv : validFromS cmp len base steps = true) (v : V) :
+    checkString cmp len (effectiveS base steps) v = true ↔
+      (checkString cmp len base v = true ∧ ∀ s ∈ steps, checkString cmp len s v = true) := by
+  rw [chain_conj_S cmp len hcmp hlen steps base hv v]
+  simp [List.all_eq_true]
+
+/-- list: every white-space separated item valid for the item type, and the length facets count the items -/
+theorem list_iff (item : List Nat → Bool) (f : Step (List (List Nat))) (tokens : List (List Nat)) :
+    listCheck item f tokens = true ↔
+      listOk (fun it => item it = true)
+        (fun n => (∀ k, f.maxLength = some k → n ≤ k) ∧ (∀ k, f.minLength = some k → k ≤ n) ∧ (∀ k, f.length = some k → n = k))
+        tokens := by
+  unfold listCheck listOk
+  simp only [Bool.and_eq_true, List.all_eq_true]
+  constructor
+  · rintro ⟨⟨⟨h1, h2⟩, h3⟩, h4⟩
+    refine ⟨h1, ?_, ?_, ?_⟩
+    · intro k hk; rw [hk] at h2; simp at h2; omega
+    · intro k hk; rw [hk] at h3; simp at h3; omega
+    · intro k hk; rw [hk] at h4; simpa using h4
+  · rintro ⟨h1, h2, h3, h4⟩
+    refine ⟨⟨⟨h1, ?_⟩, ?_⟩, ?_⟩
+    · cases h : f.maxLength with
+      | none => rfl
+      | some k => have := h2 k h; simp; omega
+    · cases h : f.minLength with
+      | none => rfl
+      | some k => have := h3 k h; simp; omega
+    · cases h : f.length with
+      | none => rfl
+      | some k => simpa using h4 k h
+
+/-- union: the member loop returns the FIRST member type that accepts; the value is valid iff some member accepts -/
+theorem union_iff (members : List (List Nat → Bool)) (s : List Nat) :
+    unionCheck members s = unionMember members s ∧ ((unionCheck members s).isSome = true ↔ unionOk members s) := by
+  have e : unionCheck members s = unionMember members s := by
+    unfold unionCheck unionMember
+    rw [unionCheck_go]; cases List.findIdx? (fun m => m s) members <;> simp
+  refine ⟨e, ?_⟩
+  rw [e]; unfold unionMember unionOk
+  rw [List.findIdx?_isSome]; simp
+
+end Facets
+
 /-! ## Non-vacuity: the hypotheses are met by concrete non-trivial data. -/
 section NonVacuity
 open XV.Spec.Codec XV.Model.Codec
@@ -663,6 +762,25 @@ example : XV.Spec.DateTime.valid ⟨2000, 2, 29, 24, 0, 0, [0], .neg 14 0⟩ = t
     XV.Spec.DateTime.valid ⟨1900, 2, 29, 0, 0, 0, [], .none⟩ = false ∧
     XV.Spec.DateTime.valid ⟨2000, 1, 1, 24, 0, 1, [], .none⟩ = false ∧
     XV.Spec.DateTime.valid ⟨2000, 1, 1, 0, 0, 0, [], .pos 14 1⟩ = false := by decide
+
+-- facets: decimal{minExclusive 0} -> {maxInclusive 10}: a valid chain; the inherited set keeps the lower bound
+example :
+    let s1 : XV.Spec.Facets.Step (Int × Nat) := { minExcl := some (0, 0) }
+    let s2 : XV.Spec.Facets.Step (Int × Nat) := { maxIncl := some (10, 0) }
+    let dg0 : Int × Nat → Nat × Nat := fun _ => (0, 0)
+    XV.Model.Facets.validFrom XV.Lemmas.Facets.decCmp dg0 {} [s1, s2] = true ∧
+    (XV.Model.Facets.effective {} [s1, s2]).minExcl = some (0, 0) ∧
+    XV.Model.Facets.checkNumeric XV.Lemmas.Facets.decCmp dg0 (XV.Model.Facets.effective {} [s1, s2]) (5, 0) = true ∧
+    XV.Model.Facets.checkNumeric XV.Lemmas.Facets.decCmp dg0 (XV.Model.Facets.effective {} [s1, s2]) (0, 0) = false ∧
+    XV.Model.Facets.checkNumeric XV.Lemmas.Facets.decCmp dg0 (XV.Model.Facets.effective {} [s1, s2]) (-1, 0) = false ∧
+    XV.Model.Facets.checkNumeric XV.Lemmas.Facets.decCmp dg0 (XV.Model.Facets.effective {} [s1, s2]) (100, 1) = true ∧
+    XV.Model.Facets.checkNumeric XV.Lemmas.Facets.decCmp dg0 (XV.Model.Facets.effective {} [s1, s2]) (101, 1) = false ∧
+    -- loosening the bound is refused when the type is built
+    XV.Model.Facets.validFrom XV.Lemmas.Facets.decCmp dg0 {} [s2, { maxIncl := some (11, 0) }] = false := by
+  decide +kernel
+example : XV.Model.Facets.unionCheck [fun s => s == [1], fun s => s.length == 1, fun _ => true] [2] = some 1 ∧
+    XV.Model.Facets.listCheck (fun s => s.length == 1) { maxLength := some 2 } [[1], [2]] = true ∧
+    XV.Model.Facets.listCheck (fun s => s.length == 1) { maxLength := some 2 } [[1], [2], [3]] = false := by decide
 
 end NonVacuity
 
